@@ -88,6 +88,87 @@ func init() {
 		v.N("gen_sm2_P", vals["P"])
 		v.N("gen_sm2_N", vals["N"])
 		v.N("gen_ticketKeyNameLen", knl)
-		return v.Write(c, "DecConsts.v")
+		if err := v.Write(c, "DecConsts.v"); err != nil {
+			return err
+		}
+		// round 6 (additive, own file so that DecConsts.v and everything built on it stay untouched):
+		// the two width limits of the long-form length in readObject
+		//   gen_berMaxLenOctets   X of "if numberOfBytes > X"            (length too long)
+		//   gen_berNegLenOctets   X of "if numberOfBytes == X && ..."    (length is negative)
+		ro, ok := px.Funcs["readObject"]
+		if !ok {
+			return fmt.Errorf("readObject not found in x509/ber.go")
+		}
+		var maxOct, negOct *big.Int
+		var lerr error
+		ast.Inspect(ro, func(n ast.Node) bool {
+			be, ok := n.(*ast.BinaryExpr)
+			if !ok {
+				return true
+			}
+			id, ok := be.X.(*ast.Ident)
+			if !ok || id.Name != "numberOfBytes" {
+				return true
+			}
+			switch be.Op.String() {
+			case ">":
+				x, err := berWidthExpr(px, be.Y)
+				if err != nil {
+					return true // "numberOfBytes > len(ber)-offset" is the other comparison
+				}
+				if maxOct != nil {
+					lerr = fmt.Errorf("readObject: more than one 'numberOfBytes > const' test")
+				}
+				maxOct = x
+			case "==":
+				x, err := berWidthExpr(px, be.Y)
+				if err != nil {
+					lerr = fmt.Errorf("readObject: 'numberOfBytes == ...' is not a constant: %v", err)
+					return true
+				}
+				if negOct != nil {
+					lerr = fmt.Errorf("readObject: more than one 'numberOfBytes == const' test")
+				}
+				negOct = x
+			}
+			return true
+		})
+		if lerr != nil {
+			return lerr
+		}
+		if maxOct == nil || negOct == nil {
+			return fmt.Errorf("readObject: width tests 'numberOfBytes > const' / 'numberOfBytes == const' not found")
+		}
+		w := NewV("width limits of the long-form length in readObject (C18)", px, "x509/ber.go")
+		w.N("gen_berMaxLenOctets", maxOct)
+		w.N("gen_berNegLenOctets", negOct)
+		return w.Write(c, "DecBerLen.v")
 	})
+}
+
+// berWidthExpr evaluates a constant width expression; bits.UintSize counts as 64 (the models assume a 64-bit int)
+func berWidthExpr(p *Pkg, e ast.Expr) (*big.Int, error) {
+	if v, err := p.Eval(e); err == nil {
+		return v, nil
+	}
+	switch t := e.(type) {
+	case *ast.ParenExpr:
+		return berWidthExpr(p, t.X)
+	case *ast.SelectorExpr:
+		if id, ok := t.X.(*ast.Ident); ok && id.Name == "bits" && t.Sel.Name == "UintSize" {
+			return big.NewInt(64), nil
+		}
+	case *ast.BinaryExpr:
+		x, e1 := berWidthExpr(p, t.X)
+		y, e2 := berWidthExpr(p, t.Y)
+		if e1 == nil && e2 == nil && y.Sign() > 0 {
+			switch t.Op.String() {
+			case "/":
+				return new(big.Int).Quo(x, y), nil
+			case "*":
+				return new(big.Int).Mul(x, y), nil
+			}
+		}
+	}
+	return nil, fmt.Errorf("not a constant width expression")
 }
